@@ -118,8 +118,19 @@ fn check_trace(r: &Value) -> Vec<(String, String)> {
 }
 
 pub fn run(cfg: &Cfg) -> i32 {
+    run_as(cfg, false)
+}
+
+/// the same matrix restricted to faults that are error *replies* (rpc-error of severity error in
+/// any of the forms, at every position, with 2 and with 40 loads), judged for C08: the agent run
+/// must not report success
+pub fn run_for_c08(cfg: &Cfg) -> i32 {
+    run_as(cfg, true)
+}
+
+fn run_as(cfg: &Cfg, c08: bool) -> i32 {
     let mut rep = Report::new(
-        "C04",
+        if c08 { "C08" } else { "C04" },
         cfg,
         "one evaluation = one run of the real agent binary (TLS remote target) against the fake Junos with one fault injected at one position of the request sequence open -> get-config x2 -> load x N -> commit -> close-configuration -> close-session; \
          the fake Junos' request log and the exit status are checked against the trace specification; distinct = distinct (N, position, fault kind); non-trivial = a fault is injected",
@@ -164,6 +175,9 @@ pub fn run(cfg: &Cfg) -> i32 {
         for occ in occs {
             cases.push(Case { n, op: "load-configuration".into(), occ, kind: FaultKind::RpcError });
         }
+    }
+    if c08 {
+        cases.retain(|c| c.op != "none" && matches!(c.kind, FaultKind::RpcError | FaultKind::DelayedRpcError | FaultKind::ErrorThenOk | FaultKind::ErrorWarningThenOk | FaultKind::PositiveThenRpcError) && (c.n == 2 || c.n == 40 || c.n == 5));
     }
     let cases: Vec<Case> = cases.into_iter().enumerate().filter(|(i, _)| (*i as u64) % cfg.shards == cfg.shard).map(|(_, c)| c).collect();
     let irr = match Server::start(simple_db(41), Faults::default()) {
